@@ -324,6 +324,9 @@ pub(crate) fn coalesce_registers(
         final_reg_to_reg_map.insert(reg, temp);
     }
 
+    #[cfg(fuellabs_sway_verif)]
+    verif_dump_coalescing(ops, &final_reg_to_reg_map);
+
     // Update the registers for all instructions using final_reg_to_reg_map
     for new_op in &mut reduced_ops {
         *new_op = new_op.update_register(&final_reg_to_reg_map);
@@ -674,15 +677,13 @@ pub(crate) fn allocate_registers(ops: &[Op]) -> Result<Vec<AllocatedAbstractOp>,
     Ok(buf)
 }
 
-/// Verification hook H4: dump the post-coalescing ops (defs, uses, successors, move source) and
-/// the virtual -> physical assignment of one function to the verification trace.
+/// Verification hook H4: the abstract view of `ops` as the inside of a JSON object
+/// (`"ops":[{"d":[defs],"u":[uses],"s":[successor indices],"mv":MOVE source or null},...]`,
+/// virtual registers only) and the set of virtual registers mentioned.
 #[cfg(fuellabs_sway_verif)]
-fn verif_dump_allocation(ops: &[Op], pool: &RegisterPool) {
+fn verif_ops_json(ops: &[Op]) -> (String, BTreeSet<VirtualRegister>) {
     use crate::asm_lang::{ControlFlowOp, Label};
     use std::fmt::Write;
-    if !sway_utils::verif::tracing() {
-        return;
-    }
     let mut label_to_index: HashMap<Label, usize> = HashMap::new();
     for (idx, op) in ops.iter().enumerate() {
         if let Either::Right(ControlFlowOp::Label(op_label)) = op.opcode {
@@ -721,16 +722,59 @@ fn verif_dump_allocation(ops: &[Op], pool: &RegisterPool) {
             mv
         );
     }
-    out.push_str("],\"assign\":{");
+    out.push(']');
+    (out, all)
+}
+
+/// Verification hook H4: dump the post-coalescing ops (defs, uses, successors, move source) and
+/// the virtual -> physical assignment of one function to the verification trace.
+#[cfg(fuellabs_sway_verif)]
+fn verif_dump_allocation(ops: &[Op], pool: &RegisterPool) {
+    use std::fmt::Write;
+    if !sway_utils::verif::tracing() {
+        return;
+    }
+    let (mut out, all) = verif_ops_json(ops);
+    out.push_str(",\"assign\":{");
     for (i, r) in all.iter().enumerate() {
         let phys = match pool.get_register(r) {
             Some(a) => format!("\"{}\"", sway_utils::verif::esc(&a.to_string())),
             None => "null".to_string(),
         };
-        let _ = write!(out, "{}{}:{}", if i == 0 { "" } else { "," }, name(r), phys);
+        let _ = write!(
+            out,
+            "{}\"{}\":{}",
+            if i == 0 { "" } else { "," },
+            sway_utils::verif::esc(&r.to_string()),
+            phys
+        );
     }
     out.push('}');
     sway_utils::verif::trace("RegAlloc", &out);
+}
+
+/// Verification hook H4: dump the ops one colouring attempt starts from (before MOVE coalescing)
+/// and the coalescing map (removed register -> register that replaces it). The last `Coalesce`
+/// event before a `RegAlloc` event belongs to the same function and the same attempt.
+#[cfg(fuellabs_sway_verif)]
+fn verif_dump_coalescing(ops: &[Op], map: &IndexMap<&VirtualRegister, &VirtualRegister>) {
+    use std::fmt::Write;
+    if !sway_utils::verif::tracing() {
+        return;
+    }
+    let (mut out, _) = verif_ops_json(ops);
+    out.push_str(",\"map\":{");
+    for (i, (old, new)) in map.iter().enumerate() {
+        let _ = write!(
+            out,
+            "{}\"{}\":\"{}\"",
+            if i == 0 { "" } else { "," },
+            sway_utils::verif::esc(&old.to_string()),
+            sway_utils::verif::esc(&new.to_string())
+        );
+    }
+    out.push('}');
+    sway_utils::verif::trace("Coalesce", &out);
 }
 
 /// Use the stack generated by the coloring algorithm to figure out a register assignment for each
